@@ -223,10 +223,10 @@ func (x *Exec) allocRoot(st *State, base string) string {
 }
 
 // slice helpers
-func sArr(s string) string { return sx("s_arr", s) }
-func sOff(s string) string { return sx("s_off", s) }
-func sLen(s string) string { return sx("s_len", s) }
-func sCap(s string) string { return sx("s_cap", s) }
+func sArr(s string) string { return sliceField(s, 1, "s_arr") }
+func sOff(s string) string { return sliceField(s, 2, "s_off") }
+func sLen(s string) string { return sliceField(s, 3, "s_len") }
+func sCap(s string) string { return sliceField(s, 4, "s_cap") }
 
 func elemOfSliceType(t types.Type) types.Type {
 	switch u := t.Underlying().(type) {
